@@ -58,9 +58,10 @@ def write_leveldb(path, kvs):
     """kvs: iterable of (key, value) bytes; written as one batch into a fresh database"""
     os.makedirs(path)
     kvs = list(kvs)
-    batch = struct.pack('<QI', 1, len(kvs))
+    parts = [struct.pack('<QI', 1, len(kvs))]
     for k, v in kvs:
-        batch += b'\x01' + _varint(len(k)) + k + _varint(len(v)) + v
+        parts += [b'\x01', _varint(len(k)), k, _varint(len(v)), v]
+    batch = b''.join(parts)
     with open(os.path.join(path, '000003.log'), 'wb') as f:
         f.write(_log_records([batch]))
     cmp = b'leveldb.BytewiseComparator'
